@@ -6,7 +6,7 @@ D = os.path.dirname(os.path.dirname(os.path.abspath(__file__)))
 # property id -> (level text, level note, technique, design ref)
 CLAIMED = {
  "C20": (
-  "Bounded symbolic model checking of the real code: ByteRangeLockSet.Set/Test are executed symbolically from go/ssa, one step from an arbitrary pre-state satisfying the stated representation invariant (all starts/ends 64-bit symbolic, owners and types symbolic), against a per-byte reference oracle; z3 decides every branch and assertion; counterexamples are replayed natively before being reported. Holds for every value within the bounds (pre-state of <=2 entries quick / <=3 thorough for Set, +1 for Test); a clean inductive step covers histories of any length whose states stay within the entry bound.",
+  "Bounded symbolic model checking of the real code: (1) ByteRangeLockSet.Set/Test executed symbolically from go/ssa, one step from an arbitrary pre-state satisfying the stated representation invariant (all starts/ends 64-bit symbolic, owners and types symbolic), against a per-byte reference oracle (pre-state of <=2 entries quick / <=3 thorough for Set, +1 for Test; a clean inductive step covers histories of any length within the entry bound); (2) offsetLengthToStartEnd / byteRangeLockToLock4Denied for all 64-bit offsets and lengths; (3) through the real NFSv4.0 and NFSv4.1 programs: a lock with symbolic range and type by one lock-owner, then LOCKT / LOCK (both forms) / LOCKU / CLOSE by the same or another owner with a second symbolic range: another owner is denied exactly when the ranges share a byte and one side is exclusive and the reported conflict is the holder's lock; an owner is never denied by its own lock whichever request form it uses; LOCKT agrees with LOCK; unlocking or closing frees the bytes; one protocol-level owner is one owner across files. z3 decides every branch and assertion; counterexamples are replayed natively.",
   "Trusted: go/ssa construction, the gosym interpreter (fork of x/tools go/ssa/interp), z3 4.8.12; invariant stated in harness/C20/lockset.go; bounds in evidence.coverage.bounds. Outside the claim: lock sets with more entries than the bound.",
   "SMT-based symbolic execution of go/ssa (z3), inductive step from symbolic pre-state, native replay of counterexamples",
   "DESIGN.md §4 C20"),
@@ -35,6 +35,16 @@ CLAIMED = {
   "Trusted: go/ssa, gosym interpreter and scheduler, z3. Outside the claim: a static all-paths lock analysis of every function (the lockscan mode of DESIGN.md §2.7 was not built: only the paths reached by the rigs are covered); NFS server, scheduler and file-allocator locks are covered only as far as their own properties' harnesses exist; more than 3 threads; beyond the preemption bound.",
   "symbolic execution of go/ssa with explored goroutine schedules; dynamic lock-state assertions after every call; native replay",
   "DESIGN.md §4 C14"),
+ "C18": (
+  "Bounded symbolic model checking of the real code: the real nfs40Program and nfs41Program (constructed by NewNFS40Program/NewNFS41Program, driven through the real COMPOUND dispatchers) over stub directories/leaves that count underlying opens and closes per access bit. After a fixed prefix (client registered, one file open read+write) every sequence of 3 (quick) / 5 (thorough) operations out of OPEN (2 owners x 2 files x 3 share masks, upgrade), OPEN_CONFIRM, CLOSE, OPEN_DOWNGRADE, LOCK by a new lock-owner, LOCKU+RELEASE_LOCKOWNER / FREE_STATEID, client re-registration / new incarnation, DESTROY_SESSION, unlink of an open file and an arbitrary (symbolic) clock advance is explored, with the NFSv4.0 owner sequence numbers symbolic 32-bit values. After each COMPOUND: underlying opens per file and access bit equal both what the state IDs issued to the client entitle it to (ghost) and the server's own share reservations (never closed early, never leaked); closes never exceed opens; unlinked open files stay reachable; unused/unconfirmed open-owners and expired clients are reclaimed exactly when the lease time has passed; after all leases expire every table is empty; no lock left held.",
+  "Trusted: go/ssa, gosym interpreter, the time model, z3; ghost model in harness/C18/seq4{0,1}.go. Outside the claim: XDR (de)serialisation, attribute encoding, READ/WRITE/SETATTR in flight during state changes (only the stub's own assertions), more than one concurrently active client, CLAIM_PREVIOUS and create modes, longer histories.",
+  "symbolic execution of go/ssa over bounded operation sequences with symbolic sequence numbers and clock (z3), ghost-state oracle, native replay",
+  "DESIGN.md §4 C18"),
+ "C19": (
+  "Bounded symbolic model checking of the real code: NFSv4.0: after OPEN+OPEN_CONFIRM starting at an arbitrary (symbolic) owner sequence number (wrap 0xffffffff->1 included), each of CLOSE / OPEN_DOWNGRADE / OPEN / LOCK is sent with the next number and then again with an arbitrary 32-bit number: retransmission => the very same reply object and no change of any table or underlying open/close count; next => executed; anything else => BAD_SEQID without side effects; a different operation or a different state ID with the same number never gets the cached reply. NFSv4.1: second request with arbitrary slot and sequence id (replay / next / misordered / bad slot / false retry by content), CREATE_SESSION replay, and two threads sending the same (session, slot, sequence id) with the original parked inside the file system under every explored schedule: both complete with the same result and the operation ran once.",
+  "Trusted: go/ssa, gosym interpreter and scheduler, z3. Outside the claim: more than 2 slots/sessions, the SaCachethis=false path (XDR re-encoding), lock-owner seqids in 4.0 beyond LOCK-new-owner, loss/reordering histories longer than two requests.",
+  "symbolic execution of go/ssa with symbolic sequence numbers (z3) and explored goroutine schedules, native replay",
+  "DESIGN.md §4 C19"),
 }
 
 PENDING_REASON = "check not registered yet (framework under construction; see DESIGN.md §6 build order)"
